@@ -306,11 +306,52 @@ impl<'a> Binder<'a> {
         Ok(plan)
     }
 
+    /// A column-alias list on a derived table or CTE (`AS v (a, b)`,
+    /// `WITH w (a, b) AS ...`) renames the relation's columns positionally: a
+    /// projection of every column under its new name.
+    fn apply_column_aliases(
+        plan: LogicalPlan,
+        columns: &[ast::TableAliasColumnDef],
+    ) -> Result<LogicalPlan> {
+        if columns.is_empty() {
+            return Ok(plan);
+        }
+        let schema = plan.schema();
+        if columns.len() != schema.fields().len() {
+            return Err(QueryError::Bind(format!(
+                "column alias list has {} names but the relation has {} columns",
+                columns.len(),
+                schema.fields().len()
+            )));
+        }
+        let mut exprs = Vec::with_capacity(columns.len());
+        let mut fields = Vec::with_capacity(columns.len());
+        for (f, c) in schema.fields().iter().zip(columns) {
+            exprs.push(Expr::Alias {
+                expr: Box::new(Expr::Column(Column {
+                    relation: f.relation.clone(),
+                    name: f.name.clone(),
+                })),
+                name: c.name.value.clone(),
+            });
+            let mut renamed = SchemaField::new(c.name.value.clone(), f.data_type.clone());
+            renamed.nullable = f.nullable;
+            fields.push(renamed);
+        }
+        Ok(LogicalPlan::Project(ProjectNode {
+            input: Arc::new(plan),
+            exprs,
+            schema: PlanSchema::new(fields),
+        }))
+    }
+
     /// Bind CTEs (WITH clause) and register them
     fn bind_ctes(&mut self, with_clause: &ast::With) -> Result<()> {
         for cte in &with_clause.cte_tables {
             let alias_name = cte.alias.name.value.clone();
             let cte_plan = self.bind_query(&cte.query)?;
+            // WITH name (c1, c2, ...) AS (...)
+            let cte_plan = Self::apply_column_aliases(cte_plan, &cte.alias.columns)?;
 
             // Store the CTE with its alias, under a statement-unique key
             let seen = self.cte_defs_seen.entry(alias_name.clone()).or_insert(0);
@@ -1234,6 +1275,11 @@ impl<'a> Binder<'a> {
                 subquery, alias, ..
             } => {
                 let plan = self.bind_query(subquery)?;
+                // (subquery) AS alias (c1, c2, ...)
+                let plan = match alias {
+                    Some(a) => Self::apply_column_aliases(plan, &a.columns)?,
+                    None => plan,
+                };
                 let alias_name = alias
                     .as_ref()
                     .map(|a| a.name.value.clone())
